@@ -20,7 +20,9 @@ Inductive ev6 :=
 | CBtn (idx act : Z)                (* supla_esp_gpio_on_input_active (act<>0) / _inactive (act=0) of input idx *)
 | CTick (dt : Z)                    (* dt microseconds pass, then the countdown callback runs (a timer expiry) *)
 | CTime2 (ch ms : Z)                (* staircase time of a channel changed *)
-| COtherEv.
+| COtherEv
+| CChCfg (ch func ctype csize ms : Z)   (* supla_esp_channel_config_result (as C07's EChCfg) *)
+| CSent (rs : list Z).                  (* the TCP layer: results of the next espconn_sent calls (0 afterwards) *)
 
 Definition frame_size (k : call) : Z :=
   FRAME_OVERHEAD + match k with CVal _ _ => SIZE_VALUE_MSG | CRes _ _ _ => SIZE_RESULT_MSG | CExt _ _ _ _ => SIZE_EXT_MSG | COther _ => 0 end.
@@ -31,15 +33,56 @@ Fixpoint drain (n : Z) (l : list (call * Z)) : list call * list (call * Z) :=
   | [] => ([], [])
   | (k, r) :: t => if r <=? n then let '(a, b) := drain (n - r) t in (k :: a, b) else ([], (k, r - n) :: t)
   end.
-(* srpc_iterate, OUT half: one call leaves the queue, SRPC_BUFFER_SIZE bytes leave the buffer *)
+(* ---------- devconn's send buffer (supla_esp_data_write) ----------
+   Bytes popped from the proto buffer that espconn_sent refused (INPROGRESS / MAXNUM) wait in esp_send_buffer and are
+   retried before anything else is written.  A frame whose last byte has been popped but not yet accepted stays in
+   `obuf` with 0 bytes left (a prefix of such entries = the frames completed inside the send buffer); sb_n = number of
+   bytes staged.  sres = scripted results of the next espconn_sent calls. *)
+Definition bytes (l : list (call * Z)) : Z := fold_left (fun acc kr => acc + snd kr) l 0.
+Fixpoint staged (l : list (call * Z)) : list call * list (call * Z) :=
+  match l with
+  | (k, r) :: t => if r =? 0 then let '(a, b) := staged t in (k :: a, b) else ([], l)
+  | [] => ([], [])
+  end.
+Definition zeros (ks : list call) : list (call * Z) := map (fun k => (k, 0)) ks.
+Definition sent_res (s : st) : Z * st := match sres s with r :: t => (r, set_sres t s) | [] => (0, s) end.
+Definition put_wire (ks : list call) (s : st) : st := fold_left (fun acc k => emit (OWire (now s) k) acc) ks s.
+Definition lose (ks : list call) (s : st) : st := fold_left (fun acc k => emit (OLost (now s) k) acc) ks s.
+(* supla_esp_data_write(buf, n): ks = the frames that end inside buf *)
+Definition dw (ks : list call) (n : Z) (s : st) : st :=
+  let '(z0, rest) := staged (obuf s) in
+  let '(z1, s1) := if 0 <? sb_n s then
+                     let '(r, s') := sent_res s in
+                     if r =? 0 then ([], put_wire z0 (set_sb_n 0 s')) else (z0, s')
+                   else (z0, s) in
+  if 0 <? sb_n s1 then
+    if 0 <? n then
+      if SEND_BUF <? sb_n s1 + n then set_obuf (zeros z1 ++ rest) (lose ks s1)
+      else set_obuf (zeros (z1 ++ ks) ++ rest) (set_sb_n (sb_n s1 + n) s1)
+    else set_obuf (zeros z1 ++ rest) s1
+  else if 0 <? n then
+    let '(r, s2) := sent_res s1 in
+    if (r =? SENT_INPROGRESS) || (r =? SENT_MAXNUM) then
+      if SEND_BUF <? n then set_obuf (zeros z1 ++ rest) (lose ks s2)
+      else set_obuf (zeros (z1 ++ ks) ++ rest) (set_sb_n n s2)
+    else if r =? 0 then set_obuf (zeros z1 ++ rest) (put_wire ks s2)
+    else set_obuf (zeros z1 ++ rest) (lose ks s2)
+  else set_obuf (zeros z1 ++ rest) s1.
+
+(* srpc_iterate, OUT half: one call leaves the queue, up to SRPC_BUFFER_SIZE bytes leave the proto buffer and are handed
+   to supla_esp_data_write *)
 Definition iterate6 (s : st) : st :=
   if conn s then
     let s1 := match queue s with
               | k :: q => set_obuf (obuf s ++ [(k, frame_size k)]) (set_queue q s)
               | [] => s end in
-    let '(sent, rest) := drain SRPC_CHUNK (obuf s1) in
-    fold_left (fun acc k => emit (OWire (now s) k) acc) sent (set_obuf rest s1)
+    let '(z0, u) := staged (obuf s1) in
+    let '(done, rest) := drain SRPC_CHUNK u in
+    let n := bytes u - bytes rest in
+    if n =? 0 then s1 else dw done n (set_obuf (zeros z0 ++ rest) s1)
   else s.
+(* supla_esp_devconn_iterate: the staged bytes are retried first *)
+Definition dev_iterate (s : st) : st := if conn s then dw [] 0 s else s.
 
 (* supla_esp_gpio_on_input_active / _inactive, non-shutter branch, no action triggers configured *)
 Definition on_input (e : bool) (c : cfg) (i : input) (act : bool) (s : st) : st :=
@@ -50,21 +93,23 @@ Definition on_input (e : bool) (c : cfg) (i : input) (act : bool) (s : st) : st 
   else s.
 
 Definition q_line (s : st) : out :=
-  OSt (now s) (len (queue s)) (fold_left (fun acc kr => acc + snd kr) (obuf s) 0) [].
+  OSt (now s) (len (queue s)) (bytes (obuf s)) [sb_n s].
 
 Definition step6 (e : bool) (c : cfg6) (s : st) (x : ev6) : st :=
   let s1 := match x with
-            | CReg => set_obuf [] (set_queue [] (set_regreq true (set_reg true (set_conn true
-                        (set_chfl (map r_chfl (c_relays (c6 c))) s)))))
-            | CIter => iterate6 s
-            | CSetV ch v dur sender => iterate6 (channel_set_value e (c6 c) (u8 ch) v dur sender s)
-            | CGrp ch v dur => iterate6 (channel_set_value e (c6 c) (u8 ch) v dur 0 s)
+            | CReg => set_sres [] (set_sb_n 0 (set_obuf [] (set_queue [] (set_regreq true (set_reg true (set_conn true
+                        (set_chfl (map r_chfl (c_relays (c6 c))) s)))))))
+            | CIter => iterate6 (dev_iterate s)
+            | CSetV ch v dur sender => iterate6 (channel_set_value e (c6 c) (u8 ch) v dur sender (dev_iterate s))
+            | CGrp ch v dur => iterate6 (channel_set_value e (c6 c) (u8 ch) v dur 0 (dev_iterate s))
             | CBtn idx act => match nth_error (c6_inputs c) (Z.to_nat idx) with
                               | Some i => if idx <? 0 then s else on_input e (c6 c) i (negb (act =? 0)) s
                               | None => s end
             | CTick dt => if dt <? 0 then s else cd_cb (c6 c) 0 (set_now (now s + dt) s)
             | CTime2 ch ms => if (0 <=? ch) && (ch <? T2_COUNT) then set_time2 (setz (time2 s) ch ms) s else s
             | COtherEv => emit OUnknown s
+            | CChCfg ch func ctype csize ms => channel_config e (c6 c) ch func ctype csize ms s
+            | CSent rs => set_sres rs s
             end in
   emit (q_line s1) s1.
 
@@ -98,6 +143,8 @@ Definition ev6_of_wire (w : wire) : ev6 :=
     else if k =? 5 then match a with [i; act] => CBtn i act | _ => COtherEv end
     else if k =? 6 then match a with [dt] => CTick dt | _ => COtherEv end
     else if k =? 7 then match a with [ch; ms] => CTime2 ch ms | _ => COtherEv end
+    else if k =? 8 then match a with [ch; f; ct; cs; ms] => CChCfg ch f ct cs ms | _ => COtherEv end
+    else if k =? 9 then CSent a
     else COtherEv
   end.
 Definition call_id (k : call) : Z :=
@@ -111,7 +158,7 @@ Definition wire_of_out6 (o : out) : list wire :=
   | OWire t (CExt ch rm tg sd) => [mk 12 [t; ch; rm; tg; sd] []]
   | OWire t (COther i) => [mk 15 [t; i] []]
   | ODrop t k => [mk 13 [t; call_id k] []]
-  | OSt t q b _ => [mk 14 [t; q; b] []]
+  | OSt t q b l => [mk 14 (t :: q :: b :: l) []]
   | _ => []
   end.
 Definition run_wire6 (e : bool) (ws : list wire) : list wire :=
